@@ -143,6 +143,9 @@ def arma_case(draw):
     b = [[draw(coef), draw(coef) if cplx_b else 0.0] for _ in range(nb)] if which in ("both", "B") else None
     m = max(len(a) if a else 0, len(b) if b else 0)
     nfft = draw(gen.nfft_at_least(m + 1, 6))
+    if draw(st.integers(0, 19)) == 19:
+        # grids beyond the function's default size 4096, primes and smooth sizes
+        nfft = draw(st.sampled_from([4097, 4099, 5000, 8191, 8192, 10007]))
     return {"a": a, "b": b, "rho": draw(st.one_of(st.sampled_from([1.0, 0.5, 2.0]), st.floats(1e-3, 1e3))),
             "T": draw(gen.sampling), "nfft": nfft}
 
